@@ -243,10 +243,10 @@ def check(run):
                  lambda e: e.get("ev") == "Read")
         validate(run, None, None, "ReadPathMonitor", "ReadPathMonitor.cfg", allfree, "free-run", lambda e: e.get("ev") == "Read")
     if meta_jobs:
-      validate(run, "TarMetaTrace", "TarMetaTrace.cfg", "TarMetaMonitor", "TarMetaMonitor.cfg", allmeta, "meta",
-             lambda e: e.get("ev") in ("Lookup", "Readdir", "Getattr", "Readlink", "Getxattr"))
-    if only:
-        run.inconclusive.append("VERIF_C02_ONLY=%s: partial run (development aid), not a verdict" % only) if not run.violations else None
+        validate(run, "TarMetaTrace", "TarMetaTrace.cfg", "TarMetaMonitor", "TarMetaMonitor.cfg", allmeta, "meta",
+                 lambda e: e.get("ev") in ("Lookup", "Readdir", "Getattr", "Readlink", "Getxattr"))
+    if only and not run.violations:
+        run.inconclusive.append("VERIF_C02_ONLY=%s: partial run (development aid), not a verdict" % only)
     run.cov["exhaustive"] = exhaustive
 
 
